@@ -693,7 +693,25 @@ def matrix_cases(r, W, preset, n_target):
     return cases
 
 
-def safety_check(W, new):
+def dirty_interpretations(payload, bases):
+    """where the payload's dirty_files keys point when read against the directories the request was made for
+    (an unsaved editor buffer may legitimately name a file that is not on disk yet)"""
+    out = set()
+    try:
+        obj = json.loads(payload) if isinstance(payload, (str, bytes)) else None
+    except Exception:  # noqa
+        return out
+    df = obj.get("dirty_files", obj.get("dirtyFiles")) if isinstance(obj, dict) else None
+    if isinstance(df, dict):
+        for k in df:
+            if isinstance(k, str) and "\0" not in k:
+                for b in bases:
+                    if b:
+                        out.add(os.path.normpath(k if os.path.isabs(k) else os.path.join(b, k)))
+    return out
+
+
+def safety_check(W, new, unsaved=()):
     """every new entry must lie in the innermost repository containing it (independent of the payload)"""
     bad = []
     for repo, kind, f in new:
@@ -704,7 +722,7 @@ def safety_check(W, new):
         want = W.innermost(real)
         if want != repo:
             bad.append(f"{f!r} recorded in repository {repo} but {real} belongs to {want}")
-        elif not os.path.lexists(real):
+        elif not os.path.lexists(real) and os.path.normpath(real) not in unsaved:
             # a deleted tracked file is a legitimate entry; a path that never existed in this repository is not
             rc, _ = W.g("cat-file", "-e", "HEAD:" + os.path.relpath(real, W.repos[repo]["workdir"]), cwd=W.repos[repo]["workdir"])
             if rc != 0:
@@ -733,7 +751,7 @@ def matrix_batch(args):
             after, probs = W.read_logs()
             new = W.new_entries(before, after)
             before = after
-            bad += probs + safety_check(W, new)
+            bad += probs + safety_check(W, new, dirty_interpretations(payload, [cwd]))
             rejected = ERR_MARK[preset] in err
             if not rejected and payload is not None:
                 stats["accepted"] += 1
@@ -1014,7 +1032,9 @@ def layout_case(args):
                 "edited": edited, "bystanders": bystanders, "rc": rc, "stderr": err_tail(err, 500), "new_entries": new[:8]}
         # ---- oracle
         bad = basic_oracle(rc, err)
-        bad += probs + safety_check(W, new)
+        unsaved = dirty_interpretations(text, [W.repos[P]["workdir"] if P else None, None if deleted_cwd else cwd,
+                                               eff if (preset != "agent-v1" and rwd is not None) else None])
+        bad += probs + safety_check(W, new, unsaved)
         impl = {(rp, W.entry_real(rp, f)) for rp, _, f in new}
         # the workspace boundary in file-based mode (none at all when the process cwd is gone and nothing replaced it)
         base_dir = eff if (preset != "agent-v1" and rwd is not None) else (None if deleted_cwd else cwd)
